@@ -132,6 +132,33 @@ def p_sequence(v, h):
         rt = call("eas2tas", call("tas2eas", vs, hs), hs)
         if not all(rel(float(x), float(y), 1e-9) for x, y in zip(rt, vs)):
             bad.append("roundtrip#%d" % rep)
+    # the same altitude array object, changed in place between two calls (the caller's array is the caller's to change:
+    # the result must follow its current contents)
+    h2 = hs.copy()
+    for n in ("pressure", "density", "temperature", "vsound"):
+        call(n, h2)
+    for step, newh in enumerate([0.0, 1000.0 + 0.3 * h, None]):
+        if newh is None:
+            h2 += 2000.0
+        else:
+            h2[:] = newh
+        for n in ("pressure", "density", "temperature"):
+            r = call(n, h2)
+            w = [float(call(n, float(b))) for b in h2]
+            if not all(rel(float(x), y, 1e-12) for x, y in zip(r, w)):
+                bad.append("inplace-%s#%d" % (n, step))
+        for n in ("tas2cas", "tas2eas", "tas2mach"):
+            r = call(n, vs, h2)
+            w = [float(call(n, float(a), float(b))) for a, b in zip(vs, h2)]
+            if not all(rel(float(x), y, 1e-12) for x, y in zip(r, w)):
+                bad.append("inplace-%s#%d" % (n, step))
+        v2 = vs.copy()
+        call("tas2cas", v2, h2)
+        v2 *= 0.5
+        r = call("tas2cas", v2, h2)
+        w = [float(call("tas2cas", float(a), float(b))) for a, b in zip(v2, h2)]
+        if not all(rel(float(x), y, 1e-12) for x, y in zip(r, w)):
+            bad.append("inplace-speed#%d" % step)
     return "ok" if not bad else ",".join(bad)
 
 
